@@ -103,7 +103,37 @@ VARIANTS = [
       *replace_stmt("th = tuning_history[kernel.identifier]",
                     "th = tuning_history[self._kernels[0].identifier]"),
       note="every kernel gets the first kernel's tuning history", expect_rule="C07.R8"),
+    V("c07_tune_result_dropped", "M", E, "Engine._tune_kernels",
+      *replace_stmt("self._kernel_states = tune_output.kernel_states", None),
+      note="tuned kernel states never stored", expect_rule="C07.R8"),
+    V("c07_end_warmup_result_dropped", "M", E, "Engine._end_warmup",
+      *replace_stmt("self._kernel_states = end_warmup_output.kernel_states", None),
+      note="end_warmup results never stored", expect_rule="C07.R8"),
+    V("c07_tune_infos_dropped", "M", E, "Engine._tune_kernels",
+      lambda nd: isinstance(nd, ast.Expr) and "_tuning_info_chain.append" in ast.unparse(nd),
+      lambda nd: None,
+      note="tuning infos not recorded", expect_rule="C07.R8"),
+    V("c07_tune_axes", "M", E, "Engine._tune_kernels",
+      *replace_expr("(0, 0, 0, None, 0)", "(0, 0, None, None, 0)"),
+      note="model states broadcast instead of mapped", expect_rule="C07.R8"),
+    V("c07_seq_tune_states_dropped", "M", Q, "KernelSequence.tune",
+      *replace_stmt("kstates.append(result.kernel_state)", None),
+      note="tune returns no kernel states", expect_rule="C07.R8"),
+    V("c07_seq_tune_old_states", "M", Q, "KernelSequence.tune",
+      *replace_stmt("kstates.append(result.kernel_state)", "kstates.append(kernel_states[i])"),
+      note="tune returns the old kernel states", expect_rule="C07.R8"),
+    V("c07_seq_warmup_codes_dropped", "M", Q, "KernelSequence.end_warmup",
+      *replace_stmt("error_codes[kernel.identifier] = result.error_code", None),
+      note="end_warmup error codes lost", expect_rule="C07.R8"),
+    V("c07_seq_infos_wrong_key", "M", Q, "KernelSequence.transition",
+      *replace_stmt("infos[kernel.identifier] = result.info", "infos[str(i)] = result.info"),
+      note="infos keyed by position instead of identifier", expect_rule="C07.R8"),
     # ---- twins
+    V("c07_t_seq_tune_comp", "T", Q, "KernelSequence.start_epoch",
+      lambda nd: isinstance(nd, ast.Assign) and ast.unparse(nd.targets[0]) == "states",
+      lambda nd: stmt("states = []\nfor i, kernel in enumerate(self._kernels):\n"
+                      "    states.append(kernel.start_epoch(keys[i], kernel_states[i], model_state, epoch))"),
+      note="comprehension written as a loop"),
     V("c07_t_split_once", "T", E, "Engine._sample_for_duration",
       lambda nd: isinstance(nd, ast.For),
       lambda nd: stmt("all_keys = self._split_prng_key(duration)") + [ast.fix_missing_locations(
